@@ -85,6 +85,17 @@ def import_chartparse():
     global _imported
     if REPO not in sys.path:
         sys.path.insert(0, REPO)
+    first = os.environ.get("VMON_FIRST_IMPORT")
+    if first and not _imported:
+        # C17's baseline interpreters differ in which chartparse module they import first ("a fresh interpreter" is any fresh
+        # interpreter); whether that order is importable at all is C20's question, so a failure here falls back to chart first
+        try:
+            import importlib
+
+            importlib.import_module("chartparse." + first)
+        except Exception:  # noqa
+            for k in [k for k in sys.modules if k == "chartparse" or k.startswith("chartparse.")]:
+                del sys.modules[k]
     import chartparse.chart  # noqa: F401  (first, see DESIGN §2)
     import chartparse
 
